@@ -392,7 +392,7 @@ fn gen_tc(rng: &mut Rng, mode: u8) -> Tc {
         dg_recv: *rng.pick(&[0, 0, 0, 1500, 16384, -1]),
         dg_send: *rng.pick(&[0, 0, 1200, 4096, 65536]),
         gso: rng.chance(2, 3),
-        idle_ms: if mode == 0 { 0 } else { *rng.pick(&[1500, 2500]) },
+        idle_ms: if mode == 0 { 0 } else { *rng.pick(&[8000, 12000]) },
     }
 }
 
@@ -450,14 +450,17 @@ fn gen_leg(rng: &mut Rng, p_mode: u8, to: &Tc, from: &Tc, bud: &mut Budget) -> L
                 leg.len = leg.len.max(want);
                 leg.rstall = rng.range(0, (leg.len / 4).min(5000) as usize) as i64;
                 leg.rreset = rng.chance(1, 3);
+                // (tiny frames piling up unread run into quinn-proto's chunk bound)
                 leg.wchunk = leg.wchunk.max(1200);
+                leg.wpace = 0;
                 leg.rpace = 0;
             }
             _ => {}
         }
     }
-    if leg.rstall >= 0 && leg.rapi == 4 {
-        leg.rapi = 0;
+    if leg.rstall >= 0 && (leg.rapi == 4 || leg.rapi == 2) {
+        // a parked unordered reader lets up to a window of chunks pile up (see below)
+        leg.rapi = if leg.rapi == 4 { 0 } else { 1 };
     }
     if leg.rapi == 2 || leg.rapi == 4 {
         // unordered reads: quinn-proto bounds the number of buffered chunks (MAX_CHUNKS = 1024)
@@ -476,6 +479,15 @@ fn gen_leg(rng: &mut Rng, p_mode: u8, to: &Tc, from: &Tc, bud: &mut Budget) -> L
     }
     if leg.len / leg.rbuf > calls_left / 2 {
         leg.rbuf = (leg.len / (calls_left / 2)).max(1);
+    }
+    if leg.wpace != 0 && leg.len / leg.wchunk > 3000 {
+        // a yield after every write makes every write its own packet: thousands of tiny
+        // frames cost quinn-proto's reassembly seconds of CPU (and then idle timers fire)
+        leg.wchunk = (leg.len / 3000).max(1);
+    }
+    if leg.wpace != 0 && leg.wchunk < 512 && leg.rpace >= 2 {
+        // tiny single-frame packets and a reader that sleeps: quinn-proto's chunk bound again
+        leg.rpace = 1;
     }
     if leg.rapi == 4 {
         leg.rpace = if leg.rpace == 3 { 3 } else { 0 };
@@ -507,7 +519,7 @@ pub fn generate(rng: &mut Rng, idx: u64, thorough: bool, force_mode: Option<u8>)
     let mut bud = Budget {
         bytes: if big { if thorough { 12 << 20 } else { 5 << 20 } } else { 600 << 10 },
         trips: if thorough { 6000 } else { 2500 },
-        calls: if thorough { 120_000 } else { 50_000 },
+        calls: if thorough { 80_000 } else { 30_000 },
     };
     for _ in 0..nflows {
         let opener = rng.below(2);
@@ -588,7 +600,7 @@ pub fn generate(rng: &mut Rng, idx: u64, thorough: bool, force_mode: Option<u8>)
                 p.fixtures.push(Fix { kind: FX_HANDSHAKE_DATA, side: s, n: 1 });
             }
         }
-        if rng.chance(1, 12) {
+        if rng.chance(1, 25) {
             p.fixtures.push(Fix { kind: FX_CLOSED_CANCEL, side: rng.below(2), n: 1 });
         }
         let kind = *rng.pick(&[0, 0, 0, 0, 1, 1, 1, 2]);
@@ -634,6 +646,13 @@ fn sanitize_for_drop(p: &mut Prog, rng: &mut Rng) {
                 leg.len = leg.len.min(4000);
                 leg.wstall = if rng.chance(1, 2) { (leg.len / 2) as i64 } else { -1 };
             }
+        }
+    }
+    for f in &mut p.flows {
+        if f.opener != l {
+            // never accepted on the dropping side: data piles up unread there
+            f.legs[0].wchunk = f.legs[0].wchunk.max(1200);
+            f.legs[0].wpace = 0;
         }
     }
     // the limit towards the peer must let those streams open without waiting
